@@ -1008,14 +1008,12 @@ impl MerkleTree {
                 }
             }
         }
-        let instructions_or_result = self.seek_trusted_tree(root, bytes, nodes)?;
-        match instructions_or_result {
-            Either::Left(new_instructions) => {
-                instructions.extend(new_instructions);
-                Ok(Either::Left(instructions))
-            }
-            Either::Right(index) => Ok(Either::Right(index)),
+        if !instructions.is_empty() {
+            // The offset or the length of the root is not known yet: `bytes` is not relative to
+            // the root and the checks above have not run, so a seek from here would be wrong.
+            return Ok(Either::Left(instructions));
         }
+        self.seek_trusted_tree(root, bytes, nodes)
     }
 
     fn block_and_seek_proof(
